@@ -347,6 +347,7 @@ fn load_known(property: &str) -> Vec<KnownFinding> {
 struct Local {
     evals: u64,
     nontrivial: HashSet<u64>,
+    nontrivial_counted: u64,
     classes: BTreeMap<String, u64>,
     samples: Vec<Value>,
     frozen: bool,
@@ -400,6 +401,13 @@ impl<'a> CaseH<'a> {
             l.nontrivial.insert(fingerprint);
         }
     }
+    /// non-trivial cases counted by an external engine (fuzz target counters) that cannot hand over fingerprints
+    pub fn nontrivial_n(&self, n: u64) {
+        let mut l = self.local.borrow_mut();
+        if !l.frozen {
+            l.nontrivial_counted += n;
+        }
+    }
     /// extra evaluations inside one generated case (e.g. rays per scene)
     pub fn evals(&self, n: u64) {
         let mut l = self.local.borrow_mut();
@@ -428,6 +436,7 @@ pub struct Violation {
 struct Inner {
     evaluations: u64,
     nontrivial: HashSet<u64>,
+    nontrivial_counted: u64,
     classes: BTreeMap<String, u64>,
     samples: Vec<Value>,
     subs: BTreeMap<String, Value>,
@@ -497,6 +506,20 @@ impl Ctx {
         self.inner.lock().unwrap().classes.get(name).copied().unwrap_or(0)
     }
 
+    pub fn open_known_signatures(&self) -> Vec<String> {
+        if self.args.strict {
+            return vec![];
+        }
+        self.known.iter().filter(|k| k.status == "open").map(|k| k.signature.clone()).collect()
+    }
+
+    /// counts `n` cases excluded as the open known finding `sig` by an external engine
+    pub fn known_hits_add(&self, sig: &str, n: u64) {
+        if n > 0 {
+            *self.inner.lock().unwrap().known_hits.entry(sig.to_string()).or_insert(0) += n;
+        }
+    }
+
     fn is_known_open(&self, sig: &str) -> bool {
         !self.args.strict
             && self
@@ -508,12 +531,13 @@ impl Ctx {
     fn merge(&self, sub: &str, l: Local, exhaustive: bool) {
         let mut i = self.inner.lock().unwrap();
         i.evaluations += l.evals;
+        i.nontrivial_counted += l.nontrivial_counted;
         let e = i
             .subs
             .entry(sub.to_string())
             .or_insert_with(|| json!({"evaluations": 0u64, "nontrivial": 0u64}));
         e["evaluations"] = json!(e["evaluations"].as_u64().unwrap_or(0) + l.evals);
-        e["nontrivial"] = json!(e["nontrivial"].as_u64().unwrap_or(0) + l.nontrivial.len() as u64);
+        e["nontrivial"] = json!(e["nontrivial"].as_u64().unwrap_or(0) + l.nontrivial.len() as u64 + l.nontrivial_counted);
         if exhaustive {
             e["exhaustive"] = json!(true);
             if !i.exhaustive_subs.iter().any(|s| s == sub) {
@@ -782,7 +806,7 @@ impl Ctx {
         let known_excluded: u64 = i.known_hits.values().sum();
         let coverage = json!({
             "evaluations": i.evaluations,
-            "distinct_nontrivial": i.nontrivial.len(),
+            "distinct_nontrivial": i.nontrivial.len() as u64 + i.nontrivial_counted,
             "rule": i.rules.join(" | "),
             "samples": i.samples,
             "classes": i.classes,
@@ -835,7 +859,7 @@ impl Ctx {
             self.args.tier.as_str(),
             self.args.seed,
             i.evaluations,
-            i.nontrivial.len(),
+            i.nontrivial.len() as u64 + i.nontrivial_counted,
             i.violations.len(),
             known_excluded,
             wall
